@@ -250,3 +250,131 @@ Proof.
          (MkT None [ElRaw (`"2")] [(1, 40)]), (MkT None [ElRaw (`"3")] [(1, 49)]).
   split; [vm_compute; reflexivity|]. apply chain_compile. cbn. lia.
 Qed.
+
+(* ---------- the hypotheses of the step lemmas are satisfiable ---------- *)
+Fixpoint run_steps (src : str) (all : list tok) (opts : copts) (n fuel : nat)
+         (c : cstate) (it : list tok) : option (cstate * list tok) :=
+  match n with
+  | O => Some (c, it)
+  | S n' =>
+      match it with
+      | [] => None
+      | pr :: it' =>
+          match step src all opts fuel c pr it' with
+          | COk (c', it'') => run_steps src all opts n' fuel c' it''
+          | _ => None
+          end
+      end
+  end.
+
+Definition ex_src : str := `"{{#if a}}0{{else if b}}1{{else}}2{{/if}}".
+Definition ex_tokens : list tok :=
+  match hb_parse (peg_fuel ex_src) R_handlebars ex_src with Parsed ts => ts | _ => [] end.
+
+(* the state reached after n steps of the compile loop on ex_src *)
+Definition ex_state (n : nat) : option (cstate * list tok) :=
+  run_steps ex_src ex_tokens default_opts n 100 init_cstate
+            (filter (fun t => negb (is_rule R_escape t)) ex_tokens).
+
+Ltac ex_at n :=
+  lazymatch eval vm_compute in (ex_state n) with
+  | Some (?c, ?pr :: ?it) => exists c, pr, it
+  end.
+Ltac ex_val t :=
+  lazymatch eval vm_compute in t with
+  | COk ?v => v
+  end.
+
+Example step_invert_chain_tag_example :
+  exists c pr it c1 nm it0 e ts1 it1 trim t ts3 h hs,
+    tk_rule pr = R_invert_chain_tag /\
+    trailing_string ex_src c pr (line_col ex_src (tk_start pr)) = COk c1 /\
+    parse_name ex_src 100 it = COk (nm, it0) /\
+    tag_prologue ex_src 100 c1 pr it0 = COk (e, ts1, it1) /\
+    process_standalone_statement ex_src ts1 pr true (o_is_partial default_opts) = COk (trim, t :: ts3) /\
+    c_hs c = h :: hs.
+Proof.
+  ex_at 4%nat.
+  match goal with |- exists c1 nm it0 e ts1 it1 trim t ts3 h hs,
+      tk_rule ?pr = _ /\ trailing_string _ ?c _ _ = _ /\ parse_name _ _ ?it = _ /\ _ =>
+    let c1 := ex_val (trailing_string ex_src c pr (line_col ex_src (tk_start pr))) in
+    exists c1;
+    lazymatch eval vm_compute in (parse_name ex_src 100 it) with
+    | COk (?nm, ?it0) =>
+        exists nm, it0;
+        lazymatch eval vm_compute in (tag_prologue ex_src 100 c1 pr it0) with
+        | COk (?e, ?ts1, ?it1) =>
+            exists e, ts1, it1;
+            lazymatch eval vm_compute in
+                (process_standalone_statement ex_src ts1 pr true (o_is_partial default_opts)) with
+            | COk (?trim, ?t :: ?ts3) =>
+                exists trim, t, ts3;
+                lazymatch eval vm_compute in (c_hs c) with
+                | ?h :: ?hs => exists h, hs
+                end
+            end
+        end
+    end
+  end.
+  repeat split; vm_compute; reflexivity.
+Qed.
+
+Example step_invert_tag_example :
+  exists c pr it c1 e ts1 it1 trim t ts3 h hs,
+    tk_rule pr = R_invert_tag /\
+    trailing_string ex_src c pr (line_col ex_src (tk_start pr)) = COk c1 /\
+    tag_prologue ex_src 100 c1 pr it = COk (e, ts1, it1) /\
+    process_standalone_statement ex_src ts1 pr true (o_is_partial default_opts) = COk (trim, t :: ts3) /\
+    c_hs c = h :: hs.
+Proof.
+  ex_at 7%nat.
+  match goal with |- exists c1 e ts1 it1 trim t ts3 h hs,
+      tk_rule ?pr = _ /\ trailing_string _ ?c _ _ = _ /\ tag_prologue _ _ _ _ ?it = _ /\ _ =>
+    let c1 := ex_val (trailing_string ex_src c pr (line_col ex_src (tk_start pr))) in
+    exists c1;
+    lazymatch eval vm_compute in (tag_prologue ex_src 100 c1 pr it) with
+    | COk (?e, ?ts1, ?it1) =>
+        exists e, ts1, it1;
+        lazymatch eval vm_compute in
+            (process_standalone_statement ex_src ts1 pr true (o_is_partial default_opts)) with
+        | COk (?trim, ?t :: ?ts3) =>
+            exists trim, t, ts3;
+            lazymatch eval vm_compute in (c_hs c) with
+            | ?h :: ?hs => exists h, hs
+            end
+        end
+    end
+  end.
+  repeat split; vm_compute; reflexivity.
+Qed.
+
+Example step_helper_block_end_example :
+  exists c pr it c1 e ts1 it1 trim prev_t t r h hs,
+    tk_rule pr = R_helper_block_end /\
+    trailing_string ex_src c pr (line_col ex_src (tk_start pr)) = COk c1 /\
+    tag_prologue ex_src 100 c1 pr it = COk (e, ts1, it1) /\
+    process_standalone_statement ex_src ts1 pr true (o_is_partial default_opts)
+      = COk (trim, prev_t :: t :: r) /\
+    c_hs c = h :: hs /\
+    opt_str_eqb (as_name (h_name h)) (as_name (es_name e)) = true.
+Proof.
+  ex_at 10%nat.
+  match goal with |- exists c1 e ts1 it1 trim prev_t t r h hs,
+      tk_rule ?pr = _ /\ trailing_string _ ?c _ _ = _ /\ tag_prologue _ _ _ _ ?it = _ /\ _ =>
+    let c1 := ex_val (trailing_string ex_src c pr (line_col ex_src (tk_start pr))) in
+    exists c1;
+    lazymatch eval vm_compute in (tag_prologue ex_src 100 c1 pr it) with
+    | COk (?e, ?ts1, ?it1) =>
+        exists e, ts1, it1;
+        lazymatch eval vm_compute in
+            (process_standalone_statement ex_src ts1 pr true (o_is_partial default_opts)) with
+        | COk (?trim, ?p :: ?t :: ?r) =>
+            exists trim, p, t, r;
+            lazymatch eval vm_compute in (c_hs c) with
+            | ?h :: ?hs => exists h, hs
+            end
+        end
+    end
+  end.
+  repeat split; vm_compute; reflexivity.
+Qed.
